@@ -115,3 +115,34 @@ Theorem C16_event_less_is_source : forall a b,
   = SrcGen.src_regions_eventLess (SrcGenProofs.src_event_of a) (SrcGenProofs.src_event_of b).
 Proof. exact SrcGenProofs.event_less_is_source. Qed.
 Print Assumptions C16_event_less_is_source.
+
+(* ---- tie to the Go source by translation of whole function bodies (gen/ImpGen.v, written
+   by `harness gen-imp` on every run, in the embedding of Model/GoSem.v) ------------------- *)
+From Bio.gen Require ImpGen.
+From Bio.Model Require GoSem.
+From Bio.Proofs Require ImpProofs ImpProofsC.
+
+(* NewIndex of the model is, for all starts and ends, the function translated from
+   regions.go (both loops, the sort, the key set kept as a Go map and sorted by keys()):
+   the same breakpoints with the same serial numbers, or a panic in the same case. *)
+Theorem C16_new_index_is_source : forall starts ends,
+  ImpGen.imp_regions_NewIndex starts ends
+  = ImpProofs.of_outcome (ImpProofsC.omap ImpProofsC.index_of (new_index starts ends)).
+Proof. exact ImpProofsC.imp_NewIndex. Qed.
+Print Assumptions C16_new_index_is_source.
+
+(* Index.At of the model (sort.Search's loop, the lookup, the copy) is the translated one,
+   on every index and for every position. *)
+Theorem C16_at_is_source : forall ix x,
+  ImpGen.imp_regions_Index_At (ImpProofsC.index_of ix) x
+  = ImpProofs.of_outcome (ImpProofsC.omap (map Z.of_nat) (at_ ix x)).
+Proof. exact ImpProofsC.imp_Index_At. Qed.
+Print Assumptions C16_at_is_source.
+
+Example C16_source_example :
+  exists ix, ImpGen.imp_regions_NewIndex [5; 2; 7] [9; 2; 8]%Z = GoSem.Ret ix
+  /\ ImpGen.imp_regions_Index_At ix 7 = GoSem.Ret [0; 2]%Z
+  /\ ImpGen.imp_regions_Index_At ix 8 = GoSem.Ret [0]%Z
+  /\ ImpGen.imp_regions_Index_At ix 4 = GoSem.Ret []
+  /\ ImpGen.imp_regions_NewIndex [1]%Z [] = GoSem.Panics.
+Proof. eexists. vm_compute. repeat split. Qed.
